@@ -33,7 +33,7 @@ func init() { core.Register(prop{}) }
 func (prop) ID() string    { return "C16" }
 func (prop) Level() string { return "exploration" }
 func (prop) Rule() string {
-	return "scenario = one agent session over the real Disco transport carrying 1..4 multiplexed virtual connections (hello, 0..20 data messages of 0..4000 stamped bytes, eof), all interleavings of the per-connection sequences for 2x4 messages (70) and (thorough) 3x3 (1680), seeded interleavings beyond, UDP relay messages, unknown and duplicate connection ids, agent disconnect mid-stream, and a seeded subset in which the yield point parks the service's reader between its buffer check and its wait while data and EOF arrive; plus codec round trips of every message type against an independent encoder/decoder (IPv4/IPv6, all 65,536 ports, payload lengths 0..65000). Non-trivial = a session in which >=1 virtual connection delivered bytes to the service; distinct by scenario parameters. Also connections that share one remote ip:port and differ in the local port (same-remote). One seeded scenario in six opens a shadow session: a second agent on the same listener announces the same address pair as the judged session's first connection and sends data of its own. 16 (thorough 120) scenarios address a second stub service that leaves a 5 ms write deadline behind at the start and after every write: their end-of-stream messages, or the agent's disconnect, arrive after those deadlines have passed. udp-late-replies: 2-4 datagrams from distinct peers sent back to back to a service that answers 40 ms late; every datagram that comes back must carry the addresses of the datagram whose content it answers."
+	return "scenario = one agent session over the real Disco transport carrying 1..4 multiplexed virtual connections (hello, 0..20 data messages of 0..4000 stamped bytes, eof), all interleavings of the per-connection sequences for 2x4 messages (70) and (thorough) 3x3 (1680), seeded interleavings beyond, UDP relay messages, unknown and duplicate connection ids, agent disconnect mid-stream, and a seeded subset in which the yield point parks the service's reader between its buffer check and its wait while data and EOF arrive; plus codec round trips of every message type against an independent encoder/decoder (IPv4/IPv6, all 65,536 ports, payload lengths 0..65000). Non-trivial = a session in which >=1 virtual connection delivered bytes to the service; distinct by scenario parameters. Also connections that share one remote ip:port and differ in the local port (same-remote). One seeded scenario in six opens a shadow session: a second agent on the same listener announces the same address pair as the judged session's first connection and sends data of its own. 16 (thorough 120) scenarios address a second stub service that leaves a 5 ms write deadline behind at the start and after every write: their end-of-stream messages, or the agent's disconnect, arrive after those deadlines have passed. udp-late-replies: 2-4 datagrams from distinct peers sent back to back to a service that answers 40 ms late; every datagram that comes back must carry the addresses of the datagram whose content it answers. large-service-write: the service answers the first bytes with one single Write of 65536, 70000 or 200000 bytes, which must come back complete and in order."
 }
 func (prop) Assumptions() []string {
 	return []string{"the scripted agent frames messages exactly as the real agent does (type, length, body as three writes)", "termination is judged on content after the connection ended: a service-side EOF before all announced bytes were delivered is the loss witness"}
@@ -171,8 +171,11 @@ type scenario struct {
 	Deadline bool `json:"expired_write_deadline,omitempty"`
 	// SlowUDP: the datagrams go to a service that answers 40 ms late - after the next datagrams of other peers
 	// have arrived on the session
-	SlowUDP bool   `json:"slow_udp,omitempty"`
-	Kind    string `json:"kind"`
+	SlowUDP bool `json:"slow_udp,omitempty"`
+	// Blob > 0: the connections go to a service that answers the first bytes with one single Write of that many
+	// bytes (70000 or 200000: more than one agent protocol frame can carry)
+	Blob int    `json:"service_writes_at_once,omitempty"`
+	Kind string `json:"kind"`
 }
 
 func interleavings(counts []int) [][]int {
@@ -320,6 +323,20 @@ func scenarios(tier string, seed int64) []scenario {
 		}
 		out = append(out, sc)
 	}
+	nb := 6
+	if tier == "thorough" {
+		nb = 40
+	}
+	for i := 0; i < nb; i++ {
+		sc := scenario{Conns: 1 + i%2, Kind: "large-service-write", Blob: []int{70000, 200000, 65536}[i%3]}
+		for c := 0; c < sc.Conns; c++ {
+			sc.Msgs = append(sc.Msgs, msg{c, "hello", 0}, msg{c, "data", 10 + i})
+		}
+		for c := 0; c < sc.Conns; c++ {
+			sc.Msgs = append(sc.Msgs, msg{c, "eof", 0})
+		}
+		out = append(out, sc)
+	}
 	nu := 12
 	if tier == "thorough" {
 		nu = 100
@@ -402,6 +419,9 @@ func addrOfSc(sc scenario, k, c int, udp bool) (local, remote waddr) {
 	l, r := addrOf(k, c, sc.V6, udp)
 	if sc.Deadline && !udp {
 		l.Port = 8026
+	}
+	if sc.Blob > 0 && !udp {
+		l.Port = map[int]int{70000: 8027, 200000: 8028, 65536: 8029}[sc.Blob]
 	}
 	if sc.SlowUDP && udp {
 		l.Port = 8054
@@ -626,7 +646,7 @@ func runScenario(k int, sc scenario, listen string, key []byte) scnObs {
 			l, _ := addrOfSc(sc, k, ci, false)
 			el := len(bk.data[l.String()+"|"+r.String()])
 			bmu.Unlock()
-			if el < len(call.Data) {
+			if el < len(call.Data) || (sc.Blob > 0 && len(call.Data) > 0 && el < sc.Blob) {
 				return false
 			}
 		}
@@ -690,6 +710,13 @@ func runScenario(k int, sc scenario, listen string, key []byte) scnObs {
 		echo := bk.data[key]
 		co.EchoLen = len(echo)
 		co.EchoOK = bytes.Equal(echo, want[ci][:mini(len(want[ci]), co.ReadLen)]) || bytes.Equal(echo, want[ci])
+		if sc.Blob > 0 {
+			// what comes back is the service's single large Write, complete and in order
+			co.EchoOK = bytes.Equal(echo, lab.Blob(sc.Blob))
+			if !co.EchoOK && co.Diff == "" {
+				co.Diff = "service wrote " + fmt.Sprint(sc.Blob) + " bytes in one call; " + describeDiff(echo, lab.Blob(sc.Blob))
+			}
+		}
 		ob.Conns = append(ob.Conns, co)
 	}
 	for key, d := range bk.data {
@@ -789,7 +816,7 @@ func (prop) Child(b core.Batch, o *core.Obs) {
 	}
 	port := freePort()
 	listen := fmt.Sprintf("127.0.0.1:%d", port)
-	cfg := fmt.Sprintf("[listener]\ntype=\"agent\"\nlisten=%q\n[channel.cap0]\ntype=\"lab-capture\"\nid=\"cap0\"\n[[filter]]\nchannel=[\"cap0\"]\n[service.echo]\ntype=\"lab-stub-plain\"\nname=\"echo\"\necho=true\n[service.echod]\ntype=\"lab-stub-plain\"\nname=\"echod\"\necho=true\nwrite_deadline_ms=5\n[[port]]\nport=\"tcp/8026\"\nservices=[\"echod\"]\n[[port]]\nports=[\"tcp/8022\",\"tcp/8023\",\"tcp/8024\",\"tcp/8025\"]\nservices=[\"echo\"]\n[[port]]\nport=\"udp/8053\"\nservices=[\"echo\"]\n[service.echoslow]\ntype=\"lab-stub-plain\"\nname=\"echoslow\"\necho=true\nreply_delay_ms=40\n[[port]]\nport=\"udp/8054\"\nservices=[\"echoslow\"]\n", listen)
+	cfg := fmt.Sprintf("[listener]\ntype=\"agent\"\nlisten=%q\n[channel.cap0]\ntype=\"lab-capture\"\nid=\"cap0\"\n[[filter]]\nchannel=[\"cap0\"]\n[service.echo]\ntype=\"lab-stub-plain\"\nname=\"echo\"\necho=true\n[service.echod]\ntype=\"lab-stub-plain\"\nname=\"echod\"\necho=true\nwrite_deadline_ms=5\n[[port]]\nport=\"tcp/8026\"\nservices=[\"echod\"]\n[[port]]\nports=[\"tcp/8022\",\"tcp/8023\",\"tcp/8024\",\"tcp/8025\"]\nservices=[\"echo\"]\n[[port]]\nport=\"udp/8053\"\nservices=[\"echo\"]\n[service.blob70k]\ntype=\"lab-stub-plain\"\nname=\"blob70k\"\nblob_bytes=70000\n[[port]]\nport=\"tcp/8027\"\nservices=[\"blob70k\"]\n[service.blob200k]\ntype=\"lab-stub-plain\"\nname=\"blob200k\"\nblob_bytes=200000\n[[port]]\nport=\"tcp/8028\"\nservices=[\"blob200k\"]\n[service.blob64k]\ntype=\"lab-stub-plain\"\nname=\"blob64k\"\nblob_bytes=65536\n[[port]]\nport=\"tcp/8029\"\nservices=[\"blob64k\"]\n[service.echoslow]\ntype=\"lab-stub-plain\"\nname=\"echoslow\"\necho=true\nreply_delay_ms=40\n[[port]]\nport=\"udp/8054\"\nservices=[\"echoslow\"]\n", listen)
 	srv, err := lab.StartWith(cfg, false)
 	if err != nil {
 		o.Emit(core.Rec{T: "starterr", S: err.Error()})
